@@ -201,6 +201,79 @@ func runC18(c *engine.Ctx) {
 		}
 	}
 
+	// R4 the forward (topic -> subscribers) and reverse (subscriber -> topics) indexes stay mirror images
+	r4 := c.Rule("R4", "registry indexes stay mirror images: inner adds/removes come in pairs; an outer entry is dropped only when its own inner map is empty", 3)
+	revF := c.P.Field("notifications", "subscriberRegistry", "revTopics")
+	if revF == nil {
+		c.AnchorMissing(r4, "notifications.subscriberRegistry.revTopics")
+	} else {
+		innerOf := func(m ssa.Value) *types.Var { // m is reg.F[key]: returns F
+			if lk, ok := engine.Strip(m).(*ssa.Lookup); ok {
+				if fl, _ := engine.LoadedField(lk.X); fl == topicsF || fl == revF {
+					return fl
+				}
+			}
+			return nil
+		}
+		for _, f := range fns {
+			inner := map[*types.Var]int{}
+			engine.Instrs(f, func(in ssa.Instruction) {
+				switch x := in.(type) {
+				case *ssa.MapUpdate:
+					if fl := innerOf(x.Map); fl != nil {
+						inner[fl]++
+					}
+				case *ssa.Call:
+					b, ok := x.Call.Value.(*ssa.Builtin)
+					if !ok || b.Name() != "delete" {
+						return
+					}
+					if fl := innerOf(x.Call.Args[0]); fl != nil {
+						inner[fl]++
+						return
+					}
+					// outer delete
+					fl, _ := engine.LoadedField(x.Call.Args[0])
+					if fl != topicsF && fl != revF {
+						return
+					}
+					okEmpty := false
+					for _, cd := range engine.InstrConds(x) {
+						bo, ok := cd.V.(*ssa.BinOp)
+						if !ok {
+							continue
+						}
+						lc, ok := bo.X.(*ssa.Call)
+						if !ok {
+							continue
+						}
+						lb, ok := lc.Call.Value.(*ssa.Builtin)
+						if !ok || lb.Name() != "len" {
+							continue
+						}
+						k, _ := engine.ConstInt(bo.Y)
+						if !((bo.Op == token.EQL && cd.Pol && k == 0) || (bo.Op == token.LEQ && cd.Pol && k == 0) || (bo.Op == token.GTR && !cd.Pol && k == 0) || (bo.Op == token.NEQ && !cd.Pol && k == 0)) {
+							continue
+						}
+						if lk, ok := engine.Strip(lc.Call.Args[0]).(*ssa.Lookup); ok {
+							if lf, _ := engine.LoadedField(lk.X); lf == fl && engine.SameValue(lk.Index, x.Call.Args[1]) {
+								okEmpty = true
+							}
+						}
+					}
+					c.Decide(r4, fmt.Sprintf("%s|drop-outer %s", engine.FuncName(f), fl.Name()), x.Pos(), okEmpty,
+						"an outer index entry is dropped only when its own inner map has become empty",
+						"an entry of "+fl.Name()+" is dropped without checking that its own inner map is empty: the other index still references it, so a later unsubscribe/close no longer finds the subscription and events keep being delivered")
+				}
+			})
+			if inner[topicsF] > 0 || inner[revF] > 0 {
+				c.Decide(r4, engine.FuncName(f)+"|mirror-update", f.Pos(), inner[topicsF] == inner[revF],
+					"every inner add/remove on one index has its mirror on the other",
+					fmt.Sprintf("the two registry indexes are not updated together (%d on topics, %d on revTopics)", inner[topicsF], inner[revF]))
+			}
+		}
+	}
+
 	// R3 loop exit & drain
 	shutdownOp, okC := constOf(c, "notifications", "shutdown")
 	if !okC {
